@@ -16,6 +16,7 @@ from vmon.bridge import build_tx, model_diff, model_of_tx
 from vmon.core import outcome
 
 PROPERTY_ID = "C04"
+REPO_TEST_MODULES = ["test_tx", "test_script", "test_witness", "test_helper"]  # thorough tier: run as an extra workload under the contracts
 RULE = (
     "cases = transaction models (reference dicts) with boundary-aimed shapes: every push length 0..520, script and "
     "count fields across 0xfc/0xfd/0xffff, amounts up to 2^64-1, witness stacks up to 70000-byte items; each case runs "
